@@ -18,13 +18,33 @@ FUNCTIONS = ['hotxlfp.formulas.operators:evaluate_arithmetic', 'hotxlfp.formulas
              'hotxlfp.formulas.information:ISERR', 'hotxlfp.formulas.information:ISNA', 'hotxlfp.formulas.information:ERROR_TYPE',
              'hotxlfp.formulas.utils:inumbers']
 RULE = ('expression trees (all 11 binary operators, unary minus, calls; depth <= 5 quick / 7 thorough) in which a seeded subset '
-        'of leaves is an error-producing sub-expression: each code as a literal, as an error-valued variable, produced by an '
+        'of leaves is an error-producing sub-expression: each code as a literal, as an error-valued variable or cell, produced by an '
         'operator (1/0, "a"+1), returned by a builtin (NA()), raised by a builtin (SUM(1/0)), raised by a host function as '
-        'an XLError or as an ordinary exception; evaluated bare and under IFERROR/IFNA/ISERROR/ISERR/ISNA/ERROR.TYPE. '
-        'Non-trivial = at least one error leaf and one operator above it.')
-TRUSTED = ['builtins outside the modelled families are compared by the oracle only']
+        'an XLError or as an ordinary exception; plus seeded families of further producers whose code is OBSERVED by evaluating '
+        'the producer alone: (a) operator-produced errors through every path of the operator layer - date arithmetic whose result '
+        'precedes 1900 (DATE()/date variable/date text with + - * / and a number or blank, both orders, i.e. the result '
+        'conversion of the implicit-conversion table), text that is neither number nor date under each of + - * / against '
+        'number/text/logical/blank/date/cell, division by blank/FALSE/"0"/0.0/empty cell/blank variable; (b) errors returned or '
+        'raised by builtins of the math, date, lookup, text, statistical, engineering, logic and information families '
+        '(SQRT(-1), LN(0), DATE(10000,1,1), INDEX({..},9), MATCH(..), CHOOSE(9,1), ...), also nested in SUM/ABS/MAX/ID/IF. '
+        '(c) ARRAY operands next to error operands: an error-valued expression on one side of + - * / and an array-valued one '
+        '(array literal with , ; \\ separators, list-valued variable, range; flat of length 1/2/3, nested 2x2, column; '
+        'also sums/products of equal-shape arrays and scalars) on the other, in both orders, used as error leaves of the trees. '
+        'Every tree is evaluated bare and under IFERROR/IFNA/ISERROR/ISERR/ISNA/ERROR.TYPE, under ID(), unary minus and =1; '
+        'two sweeps put every producer family / array shape x operator x order at the top, to the right of another error '
+        'operand and under a further operator on every run. Non-trivial = at least one error leaf and one operator above it.')
+TRUSTED = ['builtins outside the modelled families are compared by the oracle only',
+           'the code of a family producer is the one the implementation reports when the producer is the whole formula (an error that '
+           'reaches the top is reported under error); a producer that reports no error there is not an error leaf and the case is skipped',
+           'the non-error parts of a tree are generated so that they cannot fail on their own (equal-shape arrays only, non-zero '
+           'divisors, no unary minus / comparison / & directly on an array value)']
 ASSUMPTIONS = ['#GETTING_DATA cannot be written as a literal (the lexer stops at the underscore); it is injected as a variable',
-               'an ordinary Python exception raised inside a call counts as the error #ERROR!']
+               'an ordinary Python exception raised inside a call counts as the error #ERROR!',
+               'when an operand of + - * / is an error value the operation evaluates to that error also when the other operand is an '
+               'array (not to an array of errors); an array that merely CONTAINS an error element is not an error operand and is not generated',
+               'a call of a name that is not a registered function (#NAME? raised before any call happens) is not a function call in the '
+               'sense of the statement: builtin producers are restricted to names registered in the tree under test',
+               'for an error-free ARRAY value only "IFERROR/IFNA do not substitute" is demanded (IS* of an array is not judged)']
 
 CODES = {'null': '#NULL!', 'div0': '#DIV/0!', 'value': '#VALUE!', 'ref': '#REF!', 'name': '#NAME?', 'num': '#NUM!',
          'na': '#N/A', 'data': '#GETTING_DATA', 'error': '#ERROR!'}
@@ -32,7 +52,25 @@ ERRTYPE = {'null': 1, 'div0': 2, 'value': 3, 'ref': 4, 'name': 5, 'num': 6, 'na'
 LITERALS = ['null', 'div0', 'value', 'ref', 'name', 'num', 'na']
 BINOPS = ['+', '-', '*', '/', '&', '=', '<>', '<', '>', '<=', '>=']
 
+ARITH = ['+', '-', '*', '/']
+
 _p = [None]
+
+
+def env_values():
+    """the variables, cells and ranges shared by the implementation run and the model request"""
+    import datetime
+    common.load_repo()
+    from hotxlfp.formulas import error
+    vs = {'e_' + tag: error.from_message(code) for tag, code in CODES.items()}
+    vs.update({'dt_a': datetime.datetime(2020, 1, 1), 'dt_b': datetime.datetime(1900, 1, 5),
+               'dt_c': datetime.datetime(1987, 6, 15), 'blank': None,
+               'lst_a': [7], 'lst_b': [3, 5], 'lst_c': [2, 3, 5], 'lst_n': [[2, 3], [5, 7]]})
+    # the listeners (and the model's host environment) are keyed by the label as it is handed over, `$` included
+    dz, na = error.from_message('#DIV/0!'), error.from_message('#N/A')
+    cells = {'C3': dz, '$C$3': dz, 'D4': na, 'D$4': na, '$D4': na, 'B2': 7}
+    ranges = {('A1', 'A3'): [[2], [3], [5]], ('$A$1', 'A3'): [[2], [3], [5]]}
+    return vs, cells, ranges
 
 
 def parser():
@@ -41,9 +79,10 @@ def parser():
         import hotxlfp
         from hotxlfp.formulas import error
         p = hotxlfp.Parser()
+        vs, cells, ranges = env_values()
+        for k, v in vs.items():
+            p.set_variable(k, v)
         for tag, code in CODES.items():
-            p.set_variable('e_' + tag, error.from_message(code))
-
             def mk(code=code):
                 def f(*a):
                     raise error.from_message(code)
@@ -54,21 +93,29 @@ def parser():
             raise ValueError('boom')
         p.set_function('PYRAISE', pyraise)
         p.set_function('ID', lambda x: x)
+        p.on('callCellValue', lambda cell, setter: setter(cells.get(cell.label)))
+        p.on('callRangeValue', lambda s, e, setter: setter(ranges.get((s.label, e.label))))
         _p[0] = p
     return _p[0]
 
 
+_env = [None]
+
+
 def model_env():
-    from hotxlfp.formulas import error
-    vs = {'e_' + tag: error.from_message(code) for tag, code in CODES.items()}
-    fns = {'RAISE_' + tag.upper(): '(raisexl %s)' % tag for tag in CODES}
-    fns['PYRAISE'] = '(raisepy %s)' % enc_str('boom')
-    fns['ID'] = '(first)'
-    return fx.env_wire(variables=vs, fns=fns)
+    if _env[0] is None:
+        vs, cells, ranges = env_values()
+        fns = {'RAISE_' + tag.upper(): '(raisexl %s)' % tag for tag in CODES}
+        fns['PYRAISE'] = '(raisepy %s)' % enc_str('boom')
+        fns['ID'] = '(first)'
+        _env[0] = fx.env_wire(variables=vs, fns=fns, cells=cells, ranges=ranges)
+    return _env[0]
 
 
-def producer(rng):
-    """-> ('err', tag, text, is_literal)"""
+# --------------------------------------------------------------------------- error producers
+
+def classic_producer(rng):
+    """-> ('err', tag, text, is_literal): the producers whose code is known by construction"""
     r = rng.random()
     if r < 0.25:
         tag = rng.choice(LITERALS)
@@ -92,10 +139,230 @@ def producer(rng):
     return ('err', 'div0', 'ID(1/0)', False)
 
 
+def _prime(rng):
+    return rng.choice(c04.PRIMES)
+
+
+def _date_call(rng):
+    return 'DATE(%d,%d,%d)' % (rng.randrange(1950, 2031), rng.randrange(1, 13), rng.randrange(1, 29))
+
+
+def _date_text(rng):
+    return '"%d-%02d-%02d"' % (rng.randrange(1950, 2031), rng.randrange(1, 13), rng.randrange(1, 29))
+
+
+def fam_date(rng):
+    """date arithmetic whose result precedes 1900: the 'result' conversion (parse_date) of the operator table
+    turns the negative serial into an error.  Serials of 1950..2030 lie between 18264 and 47848."""
+    k = rng.randrange(1, 9)
+    big = rng.randrange(50000, 100000)
+    e = rng.randrange(1, 28)
+    dvar = rng.choice(['dt_a', 'dt_b', 'dt_c'])
+    forms = [
+        lambda: 'DATE(1900,1,%d)-%d' % (e, e + rng.randrange(3, 60)),
+        lambda: 'DATE(1900,1,%d)+(-%d)' % (e, e + rng.randrange(3, 60)),
+        lambda: '%d-%s' % (rng.randrange(0, 1000), _date_call(rng)),
+        lambda: '%s-%d' % (dvar, big),
+        lambda: '%s-%d' % (_date_call(rng), big),
+        lambda: '(-%d)+%s' % (big, dvar),
+        lambda: '%s+(-%d)' % (_date_call(rng), big),
+        lambda: '%s*(-%d)' % (_date_call(rng), k),
+        lambda: '(-%d)*%s' % (k, dvar),
+        lambda: '(-%d)/%s' % (k, _date_call(rng)),
+        lambda: '%s/(-%d)' % (dvar, k),
+        lambda: 'NULL-%s' % _date_call(rng),
+        lambda: 'blank-%s' % dvar,
+        lambda: 'Z9-%s' % dvar,
+        lambda: '%s-%d' % (_date_text(rng), big),
+        lambda: '%s*(-%d)' % (_date_text(rng), k),
+        lambda: '%d-%s' % (k, _date_text(rng)),
+        lambda: '(%d-%d)-%s' % (k, k, dvar),
+        lambda: 'FALSE-%s' % dvar,
+    ]
+    return rng.choice(forms)()
+
+
+TEXTS = ['abc', 'x y', 'hello', 'qq', 'zz top', '', 'no?']
+
+
+def fam_text(rng):
+    """text that is neither a number nor a date under + - * /"""
+    t = '"%s"' % rng.choice(TEXTS)
+    other = rng.choice([str(_prime(rng)), '"%s"' % rng.choice(TEXTS), 'TRUE', 'FALSE', 'NULL', 'blank', 'dt_a',
+                        _date_call(rng), '"12"', 'B2', 'Z9', '2.5', '(%d*%d)' % (_prime(rng), _prime(rng))])
+    op = rng.choice(ARITH)
+    return t + op + other if rng.random() < 0.5 else other + op + t
+
+
+def fam_div0(rng):
+    """division by something that counts as zero"""
+    num = rng.choice([str(_prime(rng)), 'NULL', 'TRUE', '"3"', 'dt_a', _date_call(rng), 'B2', 'blank', '2.5', '0',
+                      '(%d+%d)' % (_prime(rng), _prime(rng))])
+    k = _prime(rng)
+    den = rng.choice(['NULL', 'FALSE', '"0"', 'blank', 'Z9', '0', '0.0', '"0.0"', '(%d-%d)' % (k, k), '(0*%d)' % k,
+                      '(%d=%d)' % (k, k + 1), 'ID(0)', 'SUM(0)'])
+    return num + '/' + den
+
+
+# builtin calls that return or raise an error (function name, argument text)
+BUILTINS = [
+    ('SQRT', '-%(k)d'), ('LN', '0'), ('LN', '-%(k)d'), ('LOG', '0'), ('LOG10', '-%(k)d'), ('ACOS', '%(p)d'), ('ASIN', '%(p)d'),
+    ('POWER', '-%(k)d,0.5'), ('POWER', '0,-%(k)d'), ('EXP', '1000'), ('ATANH', '1'), ('ACOSH', '0'), ('MOD', '%(k)d,0'),
+    ('QUOTIENT', '%(k)d,0'), ('FACT', '-%(k)d'), ('INT', '"abc"'), ('ABS', '"abc"'), ('ABS', ''), ('ROUND', '%(k)d'),
+    ('DATE', '10000,1,%(k)d'), ('DATE', '"a",1,1'), ('YEAR', '-%(k)d'), ('DATEVALUE', '"abc"'), ('EDATE', '"abc",1'),
+    ('WEEKDAY', '"abc"'),
+    ('INDEX', '{%(k)d,%(p)d},%(big)d'), ('MATCH', '%(big)d,{%(k)d,%(p)d},0'), ('CHOOSE', '9,%(k)d'), ('CHOOSE', '0,%(k)d,%(p)d'),
+    ('LEFT', '"abc",-%(k)d'), ('MID', '"abc",0,%(k)d'), ('CODE', '""'), ('SUBSTITUTE', '"a","a","b",0'), ('TEXT', '%(k)d'),
+    ('ROMAN', '-%(k)d'), ('HEX2DEC', '"zz"'), ('IMREAL', '""'),
+    ('AVERAGE', '"a"'), ('AVERAGE', ''), ('STDEV', '%(k)d'), ('VAR', '%(k)d'), ('MEDIAN', ''), ('LARGE', '{%(k)d,%(p)d},5'),
+    ('GEOMEAN', '-%(k)d'), ('MAX', '%(k)d,1/0'), ('SUM', '%(k)d,e_num'), ('SUM', '"a"+1'),
+    ('IF', ''), ('SWITCH', '1,2,3'), ('IFS', 'FALSE,%(k)d'), ('ERROR.TYPE', '%(k)d'), ('NA', ''),
+]
+_reg = {}
+
+
+def registered(name):
+    if name not in _reg:
+        common.load_repo()
+        from hotxlfp import formulas
+        _reg[name] = formulas.get_for(name) is not None
+    return _reg[name]
+
+
+def fam_builtin(rng):
+    for _ in range(20):
+        name, args = rng.choice(BUILTINS)
+        if registered(name):
+            return '%s(%s)' % (name, args % {'k': rng.randrange(1, 9), 'p': rng.randrange(2, 9), 'big': rng.randrange(50, 99)})
+    return 'SUM(1/0)'
+
+
+NESTS = ['SUM(%s)', 'ABS(%s)', 'MAX(1,%s)', 'ID(%s)', 'SUM(1,ABS(%s))', 'IF(TRUE,%s,1)', 'ID(ID(%s))', 'SUM({1,2},%s)']
+
+
+def fam_nested(rng):
+    inner = rng.choice([fam_date, fam_text, fam_div0, fam_builtin])(rng)
+    return rng.choice(NESTS) % inner, inner
+
+
+def fam_cell(rng):
+    return rng.choice(['C3', 'D4', '$C$3', 'D$4', '$D4', 'c3'])
+
+
+FAMILIES = [('date', fam_date), ('text', fam_text), ('div0', fam_div0), ('builtin', fam_builtin), ('nested', fam_nested),
+            ('cell', fam_cell)]
+
+
+def family_producer(rng, fam=None):
+    """-> ('err', 'dyn', text, False): an error VALUE whose code is observed by evaluating `text` alone"""
+    f = dict(FAMILIES)[fam] if fam else rng.choice(FAMILIES)[1]
+    text = f(rng)
+    if isinstance(text, tuple):
+        # a nested producer also names its inner producer (probed too: when the model has no opinion about the
+        # inner one, the case is not compared with the model)
+        return ('err', 'dyn', text[0], False, text[1])
+    return ('err', 'dyn', text, False)
+
+
+def producer(rng):
+    if rng.random() < 0.55:
+        return classic_producer(rng)
+    return family_producer(rng)
+
+
+def value_producer(rng):
+    """a producer of an error VALUE (no literal, which would abort the formula)"""
+    while True:
+        t = producer(rng)
+        if not t[3]:
+            return t
+
+
+# --------------------------------------------------------------------------- array operands
+
+SHAPES = ['one', 'two', 'three', 'sq', 'col']
+
+
+def arr_leaf(rng, shape):
+    """an array-valued leaf with non-zero numeric elements"""
+    ps = [str(x) for x in rng.sample(c04.PRIMES, 4)]
+    if shape == 'one':
+        text = rng.choice(['{%s}' % ps[0], 'lst_a'])
+    elif shape == 'two':
+        text = rng.choice(['{%s,%s}', '{%s;%s}', '{%s\\%s}']) % (ps[0], ps[1]) if rng.random() < 0.7 else 'lst_b'
+    elif shape == 'three':
+        text = rng.choice(['{%s,%s,%s}', '{%s;%s;%s}', '{%s\\%s\\%s}']) % (ps[0], ps[1], ps[2]) if rng.random() < 0.7 else 'lst_c'
+    elif shape == 'sq':
+        text = '{%s,%s;%s,%s}' % tuple(ps) if rng.random() < 0.6 else 'lst_n'
+    else:
+        text = rng.choice(['A1:A3', '$A$1:A3', 'A3:A1', 'a1:a3'])
+    return ('arr', text, shape)
+
+
+def num_leaf(rng):
+    return ('num', 'int', str(_prime(rng)), '')
+
+
+def gen_arrval(rng, depth, shape):
+    """array-valued, error-free expression that cannot fail on its own: equal shapes (or a scalar / a
+    one-element array on one side), divisors are non-zero literals / leaves"""
+    if depth <= 0 or rng.random() < 0.4:
+        return arr_leaf(rng, shape)
+    op = rng.choice(ARITH)
+    left = gen_arrval(rng, depth - 1, shape)
+    if op == '/':
+        right = arr_leaf(rng, rng.choice([shape, 'one'])) if rng.random() < 0.5 else num_leaf(rng)
+        return ('bin', op, left, right)
+    r = rng.random()
+    if r < 0.35:
+        other = gen_arrval(rng, depth - 1, shape)
+    elif r < 0.5:
+        other = arr_leaf(rng, 'one')
+    elif r < 0.85:
+        other = num_leaf(rng)
+    else:
+        other = ('bin', rng.choice(['+', '*']), num_leaf(rng), num_leaf(rng))
+    return ('bin', op, left, other) if rng.random() < 0.5 else ('bin', op, other, left)
+
+
+def gen_e(rng, depth):
+    """an expression every leaf of which is an error producer: it evaluates to an error whatever the operators"""
+    if depth <= 0 or rng.random() < 0.5:
+        return producer(rng) if rng.random() < 0.15 else value_producer(rng)
+    r = rng.random()
+    if r < 0.2:
+        return ('neg', gen_e(rng, depth - 1))
+    if r < 0.3:
+        return ('call', 'ID', 'flat', [gen_e(rng, depth - 1)], [])
+    op = rng.choice(BINOPS)
+    if r < 0.5:
+        return ('bin', op, gen_e(rng, depth - 1), num_leaf(rng))
+    if r < 0.7:
+        return ('bin', op, num_leaf(rng), gen_e(rng, depth - 1))
+    return ('bin', op, gen_e(rng, depth - 1), gen_e(rng, depth - 1))
+
+
+def gen_ae(rng, depth, op=None, shape=None, err_left=None):
+    """an error operand and an array operand on the two sides of + - * /: by the statement the operation
+    evaluates to that error, so the node can stand wherever an error leaf can"""
+    op = op or rng.choice(ARITH)
+    shape = shape or rng.choice(SHAPES)
+    e = gen_e(rng, min(depth, 2))
+    if depth > 0 and rng.random() < 0.25:
+        a = gen_ae(rng, depth - 1)
+    else:
+        a = gen_arrval(rng, min(depth, 2), shape)
+    if err_left is None:
+        err_left = rng.random() < 0.5
+    return ('bin', op, e, a) if err_left else ('bin', op, a, e)
+
+
 def leaf(rng, perr):
     if rng.random() < perr:
+        if rng.random() < 0.15:
+            return gen_ae(rng, rng.randrange(0, 3))
         return producer(rng)
-    return ('num', 'int', str(rng.choice(c04.PRIMES)), '')
+    return num_leaf(rng)
 
 
 def gen_n(rng, depth, perr):
@@ -137,10 +404,10 @@ def gen(rng, depth, perr):
 
 def render(t):
     k = t[0]
-    if k == 'err':
+    if k in ('err', 'num'):
         return t[2]
-    if k == 'num':
-        return t[2]
+    if k == 'arr':
+        return t[1]
     if k == 'neg':
         return '-(' + render(t[1]) + ')'
     if k == 'call':
@@ -148,25 +415,53 @@ def render(t):
     return '(' + render(t[2]) + ')' + t[1] + '(' + render(t[3]) + ')'
 
 
+def dyn_texts(t, acc=None):
+    """the family producers of a tree, in order of first occurrence"""
+    acc = [] if acc is None else acc
+    k = t[0]
+    if k == 'err':
+        if t[1] == 'dyn':
+            for x in t[2:3] + t[4:5]:
+                if x not in acc:
+                    acc.append(x)
+    elif k == 'neg':
+        dyn_texts(t[1], acc)
+    elif k == 'call':
+        dyn_texts(t[3][0], acc)
+    elif k == 'bin':
+        dyn_texts(t[2], acc)
+        dyn_texts(t[3], acc)
+    return acc
+
+
 class Abort(Exception):
     def __init__(self, tag):
         self.tag = tag
 
 
-def expected(t):
+class NotAProducer(Exception):
+    pass
+
+
+def expected(t, tags=None):
     """-> ('err', tag) | ('ok',) following the statement: the leftmost error operand wins,
-    an error literal aborts the whole formula"""
+    an error literal aborts the whole formula.  `tags`: observed code of each family producer"""
     k = t[0]
     if k == 'err':
         if t[3]:
             raise Abort(t[1])
+        if t[1] == 'dyn':
+            tag = (tags or {}).get(t[2])
+            if tag is None:
+                raise NotAProducer(t[2])
+            return ('err', tag)
         return ('err', t[1])
-    if k == 'num':
+    if k in ('num', 'arr'):
         return ('ok',)
     if k in ('neg', 'call'):
-        return expected(t[1] if k == 'neg' else t[3][0])
-    a = expected(t[2])
-    b = expected(t[3])
+        return expected(t[1] if k == 'neg' else t[3][0], tags)
+    a = expected(t[2], tags)
+    b = expected(t[3], tags)
     if a[0] == 'err':
         return a
     if b[0] == 'err':
@@ -178,7 +473,7 @@ def has_err(t):
     k = t[0]
     if k == 'err':
         return True
-    if k == 'num':
+    if k in ('num', 'arr'):
         return False
     if k == 'neg':
         return has_err(t[1])
@@ -191,9 +486,36 @@ WRAPS = ['%s', 'IFERROR(%s,777)', 'IFNA(%s,555)', 'ISERROR(%s)', 'ISERR(%s)', 'I
          'IFERROR(ID(%s),777)', 'ISERROR(-(%s))', 'IFERROR((%s)=1,777)']
 
 
+def _dyn(text):
+    return ('err', 'dyn', text, False)
+
+
+def _arr(text, shape):
+    return ('arr', text, shape)
+
+
+_NA = ('err', 'na', 'NA()', False)
+_DZ = ('err', 'div0', '(1/0)', False)
+_N1 = ('num', 'int', '1', '')
+# minimal witnesses of changes the check once missed (judged by the same oracle as the generated trees)
+FIXED_TREES = [
+    _dyn('DATE(1900,1,5)-10'), _dyn('1-DATE(2020,1,1)'), _dyn('dt_a-100000'),
+    ('bin', '+', _NA, _dyn('DATE(1900,1,5)-10')), ('bin', '&', _DZ, _dyn('DATE(1900,1,5)-10')),
+    ('bin', '=', _NA, _dyn('1-DATE(2020,1,1)')), ('bin', '*', _NA, _dyn('DATE(1900,1,5)-10')),
+    ('call', 'ID', 'flat', [_dyn('SUM(1,DATE(1900,1,5)-10)')], []),
+    ('bin', '+', _arr('{1,2}', 'two'), _NA), ('bin', '*', _NA, _arr('{1,2}', 'two')),
+    ('bin', '-', _arr('{1;2;3}', 'three'), _DZ), ('bin', '/', ('err', 'value', '("a"+1)', False), _arr('{1,2}', 'two')),
+    ('bin', '+', _arr('{5}', 'one'), _NA), ('bin', '+', _DZ, _arr('{1,2}', 'two')),
+    ('bin', '+', ('bin', '+', _arr('{1,2}', 'two'), _NA), _DZ), ('bin', '&', ('bin', '+', _arr('{1,2}', 'two'), _NA), _N1),
+    ('bin', '-', _arr('lst_n', 'sq'), ('err', 'data', 'e_data', False)), ('bin', '*', _arr('A1:A3', 'col'), _dyn('C3')),
+    ('bin', '+', _arr('{1,2}', 'two'), _arr('{3,4}', 'two')),
+]
+
+
 def cases(rng, ctx):
     thorough = ctx['tier'] == 'thorough'
-    n = (8000 if thorough else 700) * ctx['scale']
+    scale = ctx['scale']
+    n = (8000 if thorough else 700) * scale
     maxd = 7 if thorough else 5
     out = []
     for f in ['(1/0)=1', '(1/0)&"a"', '-(1/0)', 'IFERROR(SUM(1/0),0)', 'IFERROR(SQRT(-1),0)', '#N/A', '1+#REF!', 'ISNA(#N/A)',
@@ -201,17 +523,55 @@ def cases(rng, ctx):
               'IFERROR(RAISE_NUM(),1)', 'IFERROR(PYRAISE(),1)', 'ISERR(PYRAISE())', 'IFNA(RAISE_NA(),3)', '1<e_null', 'e_ref>=e_num',
               'IFERROR(1/0,2/0)', 'IFERROR(IFERROR(1/0,e_na),5)', 'ISERROR(ISERROR(1/0))', 'SUM(1,e_num)', 'IFERROR(SUM(1,e_num),9)']:
         out.append({'kind': 'formula', 'f': f})
+    for t in FIXED_TREES:
+        out.append({'kind': 'tree', 't': t})
     for _ in range(n):
         t = gen(rng, rng.randrange(1, maxd + 1), rng.choice([0.15, 0.3, 0.6]))
         out.append({'kind': 'tree', 't': t})
+    # sweep 1: every producer family on its own, to the RIGHT (and left) of another error operand under every
+    # operator, and under a further operator
+    rounds = (12 if thorough else 2) * scale
+    for _ in range(rounds):
+        ops = BINOPS[:]
+        rng.shuffle(ops)
+        i = 0
+        for fam, _f in FAMILIES:
+            reps = 4 if fam in ('date', 'text', 'div0', 'builtin') else 2
+            for _r in range(reps):
+                p = family_producer(rng, fam)
+                out.append({'kind': 'tree', 't': p})
+                for _k in range(3):
+                    op = ops[i % len(ops)]
+                    i += 1
+                    q = family_producer(rng, fam)
+                    out.append({'kind': 'tree', 't': ('bin', op, value_producer(rng), q)})
+                op = ops[i % len(ops)]
+                i += 1
+                out.append({'kind': 'tree', 't': ('bin', op, family_producer(rng, fam), rng.choice([num_leaf(rng), value_producer(rng)]))})
+                out.append({'kind': 'tree', 't': ('bin', rng.choice(BINOPS), num_leaf(rng), ('neg', family_producer(rng, fam)))})
+    # sweep 2: error operand x array operand: every arithmetic operator x shape x order at the top, and under a
+    # further operator with another error / a number on the other side
+    for _ in range(rounds):
+        for op in ARITH:
+            for shape in SHAPES:
+                for err_left in (True, False):
+                    out.append({'kind': 'tree', 't': gen_ae(rng, rng.randrange(0, 3), op, shape, err_left)})
+                    ae = gen_ae(rng, rng.randrange(0, 2), op, shape, err_left)
+                    other = rng.choice([num_leaf(rng), value_producer(rng)])
+                    op2 = rng.choice(BINOPS)
+                    out.append({'kind': 'tree', 't': ('bin', op2, ae, other) if rng.random() < 0.5 else ('bin', op2, other, ae)})
+        # error-free array values: the traps must not fire
+        for shape in SHAPES:
+            out.append({'kind': 'tree', 't': gen_arrval(rng, 2, shape)})
     return out
 
 
 def forms(c):
     if c['kind'] == 'formula':
         return [c['f']]
-    body = render(c04._fix(c['t']))
-    return [w % body for w in WRAPS]
+    t = c04._fix(c['t'])
+    body = render(t)
+    return [w % body for w in WRAPS] + dyn_texts(t)
 
 
 def request(c):
@@ -227,6 +587,13 @@ def agree(c, impl_ans, model_ans):
     m = fx.parse_sexp(model_ans)
     if len(m) != len(impl_ans):
         return False
+    if c['kind'] == 'tree':
+        for mm in m[len(WRAPS):]:
+            mres = mm[1][1] if isinstance(mm[1], list) and len(mm[1]) == 3 else None
+            if isinstance(mres, list) and mres and mres[0] == 'o':
+                # the model has no opinion about a producer of this tree (unmodelled builtin, dateutil text): it
+                # carries the opaque value through the operators as a non-error, so it cannot express the case
+                return True
     for (f, rec), mm in zip(impl_ans, m):
         if fx.record_matches(mm[1], rec, rel=1e-9) is False:
             return False
@@ -237,6 +604,14 @@ def is_err_rec(rec, tag):
     return rec['result'] is None and rec['error'] == CODES[tag]
 
 
+def observed_tags(impl_ans):
+    """family producer text -> tag of the error it reports when it is the whole formula (None: no error)"""
+    tags = {}
+    for f, rec in impl_ans[len(WRAPS):]:
+        tags[f] = fx.ERR_TAGS.get(rec['error']) if rec['result'] is None else None
+    return tags
+
+
 def oracle(c, impl_ans):
     if c['kind'] != 'tree':
         # the regression corpus: only the shape of the record is judged here
@@ -245,12 +620,17 @@ def oracle(c, impl_ans):
                 return '%r: error set but result not empty: %r' % (f, rec)
         return None
     t = c04._fix(c['t'])
+    for f, rec in impl_ans:
+        if rec['error'] is not None and rec['result'] is not None:
+            return '%r: error set but result not empty: %r' % (f, rec)
     try:
-        exp = expected(t)
+        exp = expected(t, observed_tags(impl_ans))
         aborted = False
     except Abort as a:
         exp = ('err', a.tag)
         aborted = True
+    except NotAProducer:
+        return None     # a family producer that reports no error on its own is not an error leaf
     recs = dict((w, r) for w, (f, r) in zip(WRAPS, impl_ans))
     fs = dict((w, f) for w, (f, r) in zip(WRAPS, impl_ans))
 
@@ -269,19 +649,19 @@ def oracle(c, impl_ans):
             return None
         for w in ('IFERROR(%s,777)', 'IFERROR(ID(%s),777)', 'IFERROR((%s)=1,777)'):
             if recs[w] != {'result': 777, 'error': None}:
-                return bad(w, 'IFERROR(x,y) = y when x is an error')
+                return bad(w, 'IFERROR(x,y) = y when x is an error (%s)' % CODES[tag])
         if tag == 'na':
             if recs['IFNA(%s,555)'] != {'result': 555, 'error': None}:
                 return bad('IFNA(%s,555)', 'IFNA traps #N/A')
         elif not is_err_rec(recs['IFNA(%s,555)'], tag):
-            return bad('IFNA(%s,555)', 'IFNA passes other errors through')
+            return bad('IFNA(%s,555)', 'IFNA passes other errors through (%s)' % CODES[tag])
         for w in ('ISERROR(%s)', 'ISERROR(-(%s))'):
             if recs[w] != {'result': True, 'error': None}:
-                return bad(w, 'ISERROR sees the error')
+                return bad(w, 'ISERROR sees the error (%s)' % CODES[tag])
         if recs['ISERR(%s)'] != {'result': tag != 'na', 'error': None}:
-            return bad('ISERR(%s)', 'ISERR = error other than #N/A')
+            return bad('ISERR(%s)', 'ISERR = error other than #N/A (here %s)' % CODES[tag])
         if recs['ISNA(%s)'] != {'result': tag == 'na', 'error': None}:
-            return bad('ISNA(%s)', 'ISNA = #N/A only')
+            return bad('ISNA(%s)', 'ISNA = #N/A only (here %s)' % CODES[tag])
         if tag in ERRTYPE:
             if recs['ERROR.TYPE(%s)'] != {'result': ERRTYPE[tag], 'error': None}:
                 return bad('ERROR.TYPE(%s)', 'ERROR.TYPE of %s is %d' % (CODES[tag], ERRTYPE[tag]))
@@ -292,6 +672,8 @@ def oracle(c, impl_ans):
     for w in ('IFERROR(%s,777)', 'IFNA(%s,555)'):
         if recs[w]['error'] is not None or not same(recs[w]['result'], bare['result']):
             return bad(w, 'x is not an error, so the result is x = %r' % (bare['result'],))
+    if isinstance(bare['result'], list):
+        return None
     for w in ('ISERROR(%s)', 'ISERR(%s)', 'ISNA(%s)'):
         if recs[w] != {'result': False, 'error': None}:
             return bad(w, 'x is not an error')
@@ -299,6 +681,8 @@ def oracle(c, impl_ans):
 
 
 def same(a, b):
+    if isinstance(a, list) or isinstance(b, list):
+        return isinstance(a, list) and isinstance(b, list) and len(a) == len(b) and all(same(x, y) for x, y in zip(a, b))
     if isinstance(a, float) or isinstance(b, float):
         try:
             return abs(a - b) <= 1e-12 * max(1.0, abs(a))
@@ -308,7 +692,79 @@ def same(a, b):
 
 
 def nontrivial(c, impl_ans):
-    return c['kind'] == 'formula' or has_err(c04._fix(c['t']))
+    if c['kind'] == 'formula':
+        return True
+    t = c04._fix(c['t'])
+    if not has_err(t):
+        return False
+    tags = observed_tags(impl_ans)
+    return all(tags.get(x) is not None for x in dyn_texts(t))
+
+
+def _children(t):
+    k = t[0]
+    if k == 'neg':
+        return [t[1]]
+    if k == 'call':
+        return [t[3][0]]
+    if k == 'bin':
+        return [t[2], t[3]]
+    return []
+
+
+def valid(t):
+    """'err' | 'arr' | 'num' (what the tree evaluates to by the statement: an error, an error-free array, an
+    error-free scalar), or None when the tree breaks the generator's invariants (an error-free array under
+    anything but + - * /)"""
+    k = t[0]
+    if k == 'err':
+        return 'err'
+    if k in ('num', 'arr'):
+        return k
+    if k in ('neg', 'call'):
+        v = valid(_children(t)[0])
+        return None if v in (None, 'arr') else v
+    a, b = valid(t[2]), valid(t[3])
+    if a is None or b is None:
+        return None
+    if t[1] not in ARITH and 'arr' in (a, b):
+        return None
+    if 'err' in (a, b):
+        return 'err'
+    return 'arr' if 'arr' in (a, b) else 'num'
+
+
+def shrink(c, msg):
+    """smallest sub-tree / simplification (inside the generated class) that the oracle still rejects"""
+    if c['kind'] != 'tree':
+        return c, msg
+    t = c04._fix(c['t'])
+    budget = 300
+    progress = True
+    while progress and budget > 0:
+        progress = False
+        cands = list(_children(t))
+        if t[0] == 'bin':
+            for i in (2, 3):
+                # keep the operator: replace one side by one of its children / by a plain number
+                for ch in _children(t[i]) + ([_N1] if t[i][0] != 'num' else []):
+                    cands.append(tuple(list(t[:i]) + [ch] + list(t[i + 1:])))
+        elif t[0] in ('neg', 'call'):
+            for ch in _children(_children(t)[0]):
+                cands.append(('neg', ch) if t[0] == 'neg' else ('call', 'ID', 'flat', [ch], []))
+        for cand in cands:
+            budget -= 1
+            if cand[0] == 'num' or valid(cand) not in ('err', 'num'):
+                continue
+            cc = {'kind': 'tree', 't': cand}
+            try:
+                m = oracle(cc, impl(cc))
+            except Exception:
+                m = None
+            if m:
+                t, msg, progress = cand, m, True
+                break
+    return {'kind': 'tree', 't': t}, msg
 
 
 def search(rng, ctx, disagreements):
